@@ -20,7 +20,7 @@ theorem InstrGotoTable_unmarshal_ns (recv : V) (d : Slice) : NS (InstrGotoTable.
 theorem InstrWriteMetadata_unmarshal_ns (recv : V) (d : Slice) : NS (InstrWriteMetadata.unmarshal recv d) := by
   unfold InstrWriteMetadata.unmarshal; post_auto [InstrHeader_unmarshal4_ns]
 theorem InstrMeter_unmarshal_ns (recv : V) (d : Slice) : NS (InstrMeter.unmarshal recv d) := by
-  unfold InstrMeter.unmarshal; post_auto [InstrHeader_unmarshal_ns]
+  unfold InstrMeter.unmarshal; post_auto [InstrHeader_unmarshal4_ns]
 
 /-- the action-list loop (InstrActions, Bucket) terminates: a decode error or an action of length 0 leaves it -/
 theorem decodeActions_ns (data : Slice) (limit n0 : Nat) (xs0 : List V) : NS (decodeActions data limit n0 xs0) := by
